@@ -1,1 +1,147 @@
-"""placeholder"""
+"""C12 - CLI wiring: port span vs. allocation step and default port, suffix preservation, delimiter-set agreement."""
+
+from __future__ import annotations
+
+import ast
+import re
+
+from . import rule
+from ..model import Unresolved, walk_scope, parent, enclosing_function, qualname, ancestors
+from ..paths import U, Path, Evaluator
+from .. import q
+
+CLI = 'openfilter/cli/common.py'
+Z = 'openfilter/filter_runtime/zeromq.py'
+F = 'openfilter/filter_runtime/filter.py'
+
+
+def port_offsets(repo, anchor, methods):
+    """offsets added to the parsed tcp port in the address handed to bind/connect, per socket kind"""
+    mod, fn = repo.find(f'{Z}::{anchor}')
+    consts = q.module_consts(mod, env_defaults=False)
+    ev = Evaluator(repo, mod, consts=consts, unroll_for=1)
+    out = {}
+    for p in ev.run(fn.body):
+        tcp = [v for k, v in p.pc if k.startswith('truthy(') and "startswith('tcp://')" in k]
+        if not tcp or tcp[0] is not True:
+            continue
+        for e in p.events:
+            if e.kind == 'call' and e.term.split('.')[-1] in methods and e.args:
+                addr = e.value.args[0]
+                if not isinstance(addr, ast.JoinedStr):
+                    continue
+                off = None
+                for v in addr.values:
+                    if isinstance(v, ast.FormattedValue):
+                        t = U(v.value)
+                        m = re.search(r'\+ (\d+)$', t)
+                        if 'int(' in t or 'TCP_DEFAULT_PORT' in t or 'port' in t or re.search(r'\d{4}', t):
+                            off = int(m.group(1)) if m else 0
+                kind = 'PUSH/PULL' if ('zmq.PULL' in e.term or 'zmq.PUSH' in e.term) else 'PUB/SUB' if ('zmq.PUB' in e.term or 'zmq.SUB' in e.term) else e.term
+                if off is not None:
+                    out.setdefault(kind, set()).add(off)
+    return mod, fn, out, consts
+
+
+@rule('C12.R1', 'port span vs. step: both ends of a tcp output use ports {p, p+1} (PUB/SUB on p, PULL/PUSH on p+1); the CLI allocates in steps >= that span above the highest user port, '
+                'and its literal default port equals zeromq.TCP_DEFAULT_PORT')
+def r1(rr, repo):
+    smod, sfn, so, consts = port_offsets(repo, 'ZMQSender.__init__', ('bind',))
+    rmod, rfn, ro, _ = port_offsets(repo, 'ZMQReceiver.Sender.__init__', ('connect',))
+    rr.ob('publisher binds PUB on port+0 and PULL on port+1', so.get('PUB/SUB') == {0} and so.get('PUSH/PULL') == {1}, smod, sfn, witness=str(so), key='sender-offsets')
+    rr.ob('consumer connects SUB to port+0 and PUSH to port+1 (same layout as the publisher)', ro.get('PUB/SUB') == {0} and ro.get('PUSH/PULL') == {1}, rmod, rfn, witness=str(ro), key='receiver-offsets')
+    offs = set().union(*so.values(), *ro.values()) if so and ro else set()
+    span = (max(offs) + 1) if offs else None
+    default = q.module_consts(smod).get('TCP_DEFAULT_PORT')
+    cmod, pf = repo.find(f'{CLI}::parse_filters')
+    # allocation step
+    steps = []
+    for n in ast.walk(pf):
+        if isinstance(n, ast.NamedExpr) and isinstance(n.target, ast.Name) and isinstance(n.value, ast.BinOp) and isinstance(n.value.op, ast.Add) \
+                and isinstance(n.value.left, ast.Name) and n.value.left.id == n.target.id and isinstance(n.value.right, ast.Constant):
+            steps.append((n, n.target.id, n.value.right.value))
+        elif isinstance(n, ast.AugAssign) and isinstance(n.op, ast.Add) and isinstance(n.target, ast.Name) and isinstance(n.value, ast.Constant) and 'port' in n.target.id:
+            steps.append((n, n.target.id, n.value.value))
+    rr.floor('port allocation steps in parse_filters', len(steps), 1, cmod, pf)
+    for n, name, k in steps:
+        rr.ob(f'the allocation step ({k}) covers the port span of one output ({span})', span is not None and isinstance(k, int) and k >= span, cmod, n, witness=f'step {k}, span {span}', key='step-vs-span')
+        # the allocated number is used for both the bind address of the producer and the connect address of the consumer
+        st = q.enclosing_stmt(n)
+        _, lst, idx = _stmt_list(st)
+        uses = [s for s in lst[idx:idx + 3] if name in U(s)]
+        rr.ob('the same allocated port names the new output (tcp://*:port) and the source that connects to it', len(uses) >= 2 and any("tcp://*:" in U(s) for s in uses) and any('tcp://localhost:' in U(s) for s in uses), cmod, st, key='alloc-both-ends')
+    # initial value and the scan over user outputs
+    pname = steps[0][1] if steps else None
+    inits = [n for n in walk_scope(pf) if isinstance(n, ast.Assign) and any(isinstance(t, ast.Name) and t.id == pname for t in n.targets)]
+    scans = [n for n in inits if 'max(' in U(n.value)]
+    init0 = [n for n in inits if isinstance(n.value, ast.Constant)]
+    rr.ob('the highest used port starts at default - step (so the first allocation is the default port, and nothing lower is handed out)', bool(init0) and default is not None and steps and init0[0].value.value == default - steps[0][2],
+          cmod, init0[0] if init0 else pf, witness=f'{U(init0[0]) if init0 else None}, default {default}', key='init-port')
+    rr.floor('scan of user-given output ports', len(scans), 1, cmod, pf)
+    for s in scans:
+        loops = [a for a in ancestors(s) if isinstance(a, ast.For)]
+        inner = loops[0] if loops else None
+        ok = inner is not None and U(inner.iter) in ('reversed(outputs)', 'outputs')
+        rr.ob('the scan looks at every user-given output of a filter (not only the first)', ok, cmod, s, witness=U(inner.iter) if inner else '', key='scan-all')
+        outer = loops[-1] if loops else None
+        alloc_outer = [a for a in ancestors(steps[0][0]) if isinstance(a, ast.For)][-1] if steps else None
+        ok2 = outer is not None and alloc_outer is not None and outer is not alloc_outer and outer.lineno < alloc_outer.lineno and parent(outer) is pf and parent(alloc_outer) is pf
+        rr.ob('the scan over all filters is completed before the first port is allocated (separate, earlier loop)', ok2, cmod, s, key='scan-before-alloc')
+        # literal default used when a user address has no port
+        lits = [c.value for c in ast.walk(s) if isinstance(c, ast.Constant) and isinstance(c.value, (int, str)) and str(c.value).isdigit() and len(str(c.value)) == 4]
+        rr.ob('the port assumed for a user address without one equals zeromq.TCP_DEFAULT_PORT', bool(lits) and all(int(x) == default for x in lits), cmod, s, witness=f'{lits} vs {default}', key='default-literal-int')
+    strs = [n for n in walk_scope(pf) if isinstance(n, ast.Constant) and isinstance(n.value, str) and n.value.isdigit() and len(n.value) == 4]
+    rr.floor('string literals of the default port in parse_filters', len(strs), 1, cmod, pf)
+    for n in strs:
+        rr.ob('the textual default port equals zeromq.TCP_DEFAULT_PORT', int(n.value) == default, cmod, n, witness=f'{n.value} vs {default}', key='default-literal-str')
+    # duplicate ids raise before ids are used for wiring
+    dup = [n for n in walk_scope(pf) if isinstance(n, ast.Raise) and 'duplicate id' in U(n)]
+    rr.ob('duplicate filter ids raise', bool(dup) and (not steps or dup[0].lineno < steps[0][0].lineno), cmod, dup[0] if dup else pf, key='dup-id')
+
+
+def _stmt_list(st):
+    par = parent(st)
+    for fname in ('body', 'orelse', 'finalbody'):
+        lst = getattr(par, fname, None)
+        if isinstance(lst, list) and st in lst:
+            return par, lst, lst.index(st)
+    raise Unresolved('statement list not found')
+
+
+@rule('C12.R2', 'suffix preservation: a rewritten source is <resolved address> + source[len(id):] with id = only_mq_addr(source), so ;topic, !opt, ?/?? survive')
+def r2(rr, repo):
+    cmod, pf = repo.find(f'{CLI}::parse_filters')
+    rewrites = [n for n in walk_scope(pf) if isinstance(n, ast.Assign) and any(isinstance(t, ast.Subscript) and U(t.value) == 'sources' for t in n.targets)]
+    rr.floor('source rewrite sites', len(rewrites), 2, cmod, pf)
+    idbind = [n for n in ast.walk(pf) if isinstance(n, ast.NamedExpr) and isinstance(n.value, ast.Call) and U(n.value.func) == 'only_mq_addr']
+    if not idbind:
+        raise Unresolved(f'{CLI}: no `(id := only_mq_addr(source))` binding')
+    idname = idbind[0].target.id
+    src = U(idbind[0].value.args[0])
+    for n in rewrites:
+        v = n.value
+        ok = isinstance(v, ast.BinOp) and isinstance(v.op, ast.Add) and isinstance(v.right, ast.Subscript) and U(v.right.value) == src \
+            and isinstance(v.right.slice, ast.Slice) and v.right.slice.upper is None and U(v.right.slice.lower) == f'len({idname})'
+        rr.ob('the rewrite appends everything of the original text after the id (source[len(id):])', ok, cmod, n, witness=U(v), key='suffix')
+    lookups = [c for c in q.calls_in(pf) if isinstance(c.func, ast.Attribute) and c.func.attr == 'get' and c.args and (U(c.args[0]) == idname or (isinstance(c.args[0], ast.NamedExpr) and c.args[0].target.id == idname))]
+    rr.ob('the id that is looked up is the id whose length is cut off', len(lookups) >= 2, cmod, pf, witness=f'{len(lookups)} lookups by {idname}', key='same-id')
+    passthru = [n for n in walk_scope(pf) if isinstance(n, ast.If) and 'is_mq_addr(source)' in U(n.test) and any(isinstance(b, ast.Continue) for b in n.body)]
+    rr.ob('a source that already is a real address is passed through unchanged', bool(passthru), cmod, pf, key='passthrough')
+
+
+@rule('C12.R3', "delimiter agreement: the characters only_mq_addr cuts at are exactly the topic separator of parse_topics, the option separator of parse_options and the ephemeral marker of the receiver")
+def r3(rr, repo):
+    cmod, oma = repo.find(f'{CLI}::only_mq_addr')
+    cut = {c.args[0].value for c in q.attr_calls(oma, 'find') if c.args and q.const_str(c.args[0])}
+    fmod, pt = repo.find(f'{F}::Filter.parse_topics')
+    _, po = repo.find(f'{F}::Filter.parse_options')
+    zmod, rs = repo.find(f'{Z}::ZMQReceiver.Sender.__init__')
+    tsep = {c.args[0].value for c in q.attr_calls(pt, 'split') if c.args and q.const_str(c.args[0]) and U(c.func.value) == q.func_params(pt)[0]}
+    osep = {c.args[0].value for c in q.attr_calls(po, 'split') if c.args and q.const_str(c.args[0]) and U(c.func.value) == q.func_params(po)[0]}
+    eph = {c.args[0].value[0] for c in q.attr_calls(rs, 'endswith') if c.args and q.const_str(c.args[0])}
+    rr.floor('delimiters found (cut set, topic, option, ephemeral)', len(cut) + len(tsep) + len(osep) + len(eph), 6, cmod, oma)
+    rr.ob('only_mq_addr cuts at {topic separator, option separator, ephemeral marker}', cut == tsep | osep | eph and len(tsep) == 1 and len(osep) == 1 and len(eph) == 1, cmod, oma,
+          witness=f'cut={sorted(cut)} topics={sorted(tsep)} options={sorted(osep)} ephemeral={sorted(eph)}', key='delims')
+    body = [n for n in ast.walk(oma) if isinstance(n, ast.Call) and isinstance(n.func, ast.Name) and n.func.id == 'min']
+    ok = bool(body) and all('& 4294967295' in U(a) or '& 0xFFFFFFFF' in U(a) for a in body[0].args) and len(body[0].args) == len(cut)
+    rr.ob('the cut position is the first delimiter present (min over find() with -1 mapped above every index)', ok, cmod, oma, key='first-delim')
